@@ -120,7 +120,7 @@ func VerifC09_ConsensusFees() {
 // queued message that has received public access data / error data and
 // evidence from an arbitrary subset of validators.
 func VerifC09_Blocks() {
-	heights := []int64{100, 101, 150, 300, 303, 600}
+	heights := []int64{100, 101, 150, 300, 303, 600, 650}
 	h := heights[sym.Choice("height", len(heights))]
 	env := New(h)
 	env.AddChain(ChainA, 1)
@@ -133,7 +133,13 @@ func VerifC09_Blocks() {
 	env.SetupFees(sdkmath.LegacyMustNewDecFromStr("1.5"), 0, 1, 2)
 	msg := &evmtypes.Message{TurnstoneID: "compass-" + ChainA, ChainReferenceID: ChainA, Assignee: Vals[0].String(), AssigneeRemoteAddress: models.EthAddrs[0], AssignedAtBlockHeight: sdkmath.NewInt(h),
 		Action: &evmtypes.Message_SubmitLogicCall{SubmitLogicCall: &evmtypes.SubmitLogicCall{HexContractAddress: "0x6666666666666666666666666666666666666666", Payload: []byte{1}, Deadline: 1000, SenderAddress: []byte("sender-address-20byt")}}}
-	id, err := env.Consensus.PutMessageInQueue(env.Ctx, c06Queue, msg, &consensus.PutOptions{RequireSignatures: true, RequireGasEstimation: sym.Bool("requires-estimate")})
+	// the message may have been waiting for a long time (old enough to be pruned at this block)
+	putCtx := env.Ctx
+	if h > 400 && sym.Bool("message-is-stale") {
+		putCtx = env.Ctx.WithBlockHeight(h - 400)
+		sym.Reach("stale-message")
+	}
+	id, err := env.Consensus.PutMessageInQueue(putCtx, c06Queue, msg, &consensus.PutOptions{RequireSignatures: true, RequireGasEstimation: sym.Bool("requires-estimate")})
 	if err != nil {
 		panic(err)
 	}
